@@ -116,7 +116,10 @@ Inductive event : Set :=
 
 Definition deliver (sid : Z) (ms : list (list Z)) : list event := map (fun m => Ev sid (EMsg m)) ms.
 
-Record app : Set := mkApp { a_chans : list chan; a_streams : smap }.
+(* a_dcep = dcep_reassembly: fragments of the DCEP message being reassembled, per stream id *)
+Record app : Set := mkApp3 { a_chans : list chan; a_streams : smap; a_dcep : pmap }.
+(* an application state with no DCEP message in reassembly (every initial state) *)
+Definition mkApp (cs : list chan) (ss : smap) : app := mkApp3 cs ss [].
 
 (* ------------------------------------------------------------------ process_data_payload, data part *)
 Definition proc_data (a : app) (p : pchunk) : app * list event :=
@@ -128,11 +131,11 @@ Definition proc_data (a : app) (p : pchunk) : app * list event :=
     if rx_flag_e (p_flags p) then
       let chans' := upd_chan sid (with_buf []) (a_chans a) in
       if rx_flag_u (p_flags p) || negb (ch_ordered ch) then
-        (mkApp chans' (a_streams a), [Ev sid (EMsg buf)])
+        (mkApp3 chans' (a_streams a) (a_dcep a), [Ev sid (EMsg buf)])
       else
         let '(ready, s') := enqueue (sm_get sid (a_streams a)) (p_ssn p) buf in
-        (mkApp chans' (sm_set sid s' (a_streams a)), deliver sid ready)
-    else (mkApp (upd_chan sid (with_buf buf) (a_chans a)) (a_streams a), [])
+        (mkApp3 chans' (sm_set sid s' (a_streams a)) (a_dcep a), deliver sid ready)
+    else (mkApp3 (upd_chan sid (with_buf buf) (a_chans a)) (a_streams a) (a_dcep a), [])
   end.
 
 (* ------------------------------------------------------------------ DCEP *)
@@ -222,28 +225,36 @@ Definition handle_dcep (a : app) (sid : Z) (d : list Z) : app * list event * boo
         | Some _ => (a, [TxDcep sid [DCEP_TYPE_ACK]], true)
         | None =>
           let ch := chan_of_open sid o in
-          (mkApp (a_chans a ++ [ch]) (a_streams a), [Ev sid EOpen; NewDc ch; TxDcep sid [DCEP_TYPE_ACK]], true)
+          (mkApp3 (a_chans a ++ [ch]) (a_streams a) (a_dcep a), [Ev sid EOpen; NewDc ch; TxDcep sid [DCEP_TYPE_ACK]], true)
         end
       end
     else if mt =? DCEP_TYPE_ACK then
       match find_chan sid (a_chans a) with
       | Some ch =>
         if DataChannelState_eqb (ch_state ch) DataChannelState_Connecting
-        then (mkApp (upd_chan sid (with_state DataChannelState_Open) (a_chans a)) (a_streams a), [Ev sid EOpen], true)
+        then (mkApp3 (upd_chan sid (with_state DataChannelState_Open) (a_chans a)) (a_streams a) (a_dcep a), [Ev sid EOpen], true)
         else (a, [], true)
       | None => (a, [], true)
       end
     else (a, [], true)
   end.
 
-(* process_data_payload *)
+(* process_data_payload. DCEP messages are reassembled per stream id (dcep_reassembly) on the B / E
+   bits before anything else; the complete message consumes an SSN when it was sent ordered and is
+   handed to handle_dcep, whose error is logged and dropped (the result flag is always true: since
+   that fix process_data_payload cannot fail, it stays in the signature for the callers' loop). *)
+Definition dm_get (sid : Z) (m : pmap) : list Z := match pm_find sid m with Some b => b | None => [] end.
 Definition proc (a : app) (p : pchunk) : app * list event * bool :=
   if p_ppid p =? DATA_CHANNEL_PPID_DCEP then
-    let a1 :=
-      if rx_flag_u (p_flags p) then a
-      else mkApp (a_chans a)
-                 (sm_set (p_sid p) (snd (enqueue (sm_get (p_sid p) (a_streams a)) (p_ssn p) [])) (a_streams a)) in
-    handle_dcep a1 (p_sid p) (p_data p)
+    let buf := (if rx_flag_b (p_flags p) then [] else dm_get (p_sid p) (a_dcep a)) ++ p_data p in
+    if negb (rx_flag_e (p_flags p)) then
+      (mkApp3 (a_chans a) (a_streams a) (pm_insert (p_sid p) buf (a_dcep a)), [], true)
+    else
+      let streams1 :=
+        if rx_flag_u (p_flags p) then a_streams a
+        else sm_set (p_sid p) (snd (enqueue (sm_get (p_sid p) (a_streams a)) (p_ssn p) [])) (a_streams a) in
+      let a1 := mkApp3 (a_chans a) streams1 (pm_remove (p_sid p) (a_dcep a)) in
+      let '(a2, evs, _) := handle_dcep a1 (p_sid p) buf in (a2, evs, true)
   else (proc_data a p, true).
 
 (* the `for (p_flags, p_chunk) in to_process { process_data_payload(..).await?; cum += 1 }` loop *)
@@ -294,6 +305,8 @@ Fixpoint take_run (fuel : nat) (next : Z) (q : list chunk) : list chunk * list c
   end.
 
 Definition recv_data (st : rstate) (c : chunk) : rstate * list event :=
+  (* DATA is dropped, unacknowledged, unless the association is established *)
+  if negb (SctpState_eqb (r_conn st) SctpState_Connected) then (st, []) else
   let diff := w32 (c_tsn c - r_cum st) in
   if data_is_dup diff then (st, [])
   else if (diff =? data_fast_diff) && is_nil (r_rq st) then
@@ -331,7 +344,7 @@ Fixpoint fwd_streams (a : app) (pairs : list (Z * Z)) : app * list event :=
     | None => fwd_streams a r
     | Some s =>
       let '(ready, s') := drain_ready (advance_ssn_to s ssn) in
-      let a1 := mkApp (a_chans a) (sm_set sid s' (a_streams a)) in
+      let a1 := mkApp3 (a_chans a) (sm_set sid s' (a_streams a)) (a_dcep a) in
       let e1 := match find_chan sid (a_chans a) with Some _ => deliver sid ready | None => [] end in
       let '(a2, e2) := fwd_streams a1 r in (a2, e1 ++ e2)
     end
@@ -349,9 +362,9 @@ Definition close_channel (a : app) (sid : Z) : app * list event :=
   match find_chan sid (a_chans a) with
   | Some c =>
     if DataChannelState_eqb (ch_state c) DataChannelState_Closed then (a, [])
-    else (mkApp (upd_chan sid (with_state DataChannelState_Closed) (a_chans a)) (sm_remove sid (a_streams a)),
+    else (mkApp3 (upd_chan sid (with_state DataChannelState_Closed) (a_chans a)) (sm_remove sid (a_streams a)) (a_dcep a),
           [TxCtl CT_RECONFIG; Ev sid EClose])
-  | None => (mkApp (a_chans a) (sm_remove sid (a_streams a)), [TxCtl CT_RECONFIG])
+  | None => (mkApp3 (a_chans a) (sm_remove sid (a_streams a)) (a_dcep a), [TxCtl CT_RECONFIG])
   end.
 
 (* SctpCleanupGuard::drop *)
@@ -416,7 +429,7 @@ Definition ssn_reset (st : rstate) (v : list Z) : rstate * list event :=
                       | [] => []
                       | _ => fold_left (fun m sid => sm_remove sid m) ids (a_streams (r_app st))
                       end in
-      (mkR (r_conn st) (r_cum st) (r_rq st) (mkApp (a_chans (r_app st)) streams') (r_used st) rsn, [TxCtl CT_RECONFIG])
+      (mkR (r_conn st) (r_cum st) (r_rq st) (mkApp3 (a_chans (r_app st)) streams' (a_dcep (r_app st))) (r_used st) rsn, [TxCtl CT_RECONFIG])
   end.
 
 Fixpoint reconfig_apply (st : rstate) (ps : list (Z * list Z)) : rstate * list event :=
@@ -451,7 +464,7 @@ Definition connected (st : rstate) : bool := SctpState_eqb (r_conn st) SctpState
 
 Definition establish (st : rstate) (pre : list event) : rstate * list event :=
   let '(cs, evs) := on_established (a_chans (r_app st)) in
-  (mkR SctpState_Connected (r_cum st) (r_rq st) (mkApp cs (a_streams (r_app st))) (r_used st) (r_prsn st), pre ++ evs).
+  (mkR SctpState_Connected (r_cum st) (r_rq st) (mkApp3 cs (a_streams (r_app st)) (a_dcep (r_app st))) (r_used st) (r_prsn st), pre ++ evs).
 
 Definition step (st : rstate) (i : input) : rstate * list event :=
   if SctpState_eqb (r_conn st) SctpState_Closed then (st, []) else
@@ -469,7 +482,7 @@ Definition step (st : rstate) (i : input) : rstate * list event :=
   | IClose sid => let '(a, evs) := close_channel (r_app st) sid in (mkR (r_conn st) (r_cum st) (r_rq st) a (r_used st) (r_prsn st), evs)
   | ITeardown =>
     let '(cs, evs) := teardown (a_chans (r_app st)) in
-    (mkR SctpState_Closed (r_cum st) (r_rq st) (mkApp cs (a_streams (r_app st))) (r_used st) (r_prsn st), evs)
+    (mkR SctpState_Closed (r_cum st) (r_rq st) (mkApp3 cs (a_streams (r_app st)) (a_dcep (r_app st))) (r_used st) (r_prsn st), evs)
   | IReconfig v => handle_reconfig st v
   end.
 
@@ -587,5 +600,12 @@ Fixpoint is_prefix_b (a b : list (list Z)) : bool :=
 Definition is_setup (i : input) : Prop :=
   match i with
   | IInit _ | IInitAck _ _ | ICookieEcho _ | ICookieAck => True
+  | _ => False
+  end.
+
+(* what may arrive before the association is established: setup chunks and DATA (any DATA) *)
+Definition pre_input (i : input) : Prop :=
+  match i with
+  | IData _ | IInit _ | IInitAck _ _ | ICookieEcho _ | ICookieAck => True
   | _ => False
   end.
